@@ -126,7 +126,7 @@ def external_value(I, ext, node):
 
 # -- attribute access -----------------------------------------------------------
 
-STR_METHODS = {'decode', 'encode', 'split', 'strip', 'lstrip', 'rstrip', 'startswith', 'endswith', 'find',
+STR_METHODS = {'removesuffix', 'removeprefix', 'decode', 'encode', 'split', 'strip', 'lstrip', 'rstrip', 'startswith', 'endswith', 'find',
                'index', 'join', 'format', 'lower', 'upper', 'replace', 'splitlines', 'count', 'isdigit',
                'rsplit', 'partition', 'rfind', 'title', 'rpartition', 'isspace', 'isalnum', 'lstrip',
                'zfill', 'ljust', 'rjust', 'isdecimal', 'isnumeric', 'translate', 'expandtabs', 'casefold'}
@@ -364,6 +364,10 @@ def set_attr(I, obj, name, v, node):
 # -- subscripts -------------------------------------------------------------------
 
 def subscript(I, obj, idx, node):
+    if type(obj).__name__ == 'AMatch' or (isinstance(obj, Unk) and obj.kinds is not None and obj.kinds <= {'Match'}):
+        # m[g] is m.group(g)
+        from sa.calls import m_group
+        return m_group(I, obj, [idx], {}, node, 'match')
     from sa.interp import AbsRaise
     obj = concrete(obj) if is_concrete(obj) else obj
     cidx = concrete(idx)
